@@ -179,4 +179,93 @@ Proof.
       eapply IH; [|exact H]. apply Forall2_app; [exact F|]. constructor; [repeat split | constructor].
 Qed.
 
+Lemma live_tuple_ph c' s2 ph ph' : live_tuple hstate c' s2 ph -> (forall id, N.odd id = true -> ph' id = ph id) -> live_tuple hstate c' s2 ph'.
+Proof.
+  intros (A & B & C & D & E & F & P1 & P2) H.
+  split; [exact A|]. split; [exact B|]. split; [exact C|]. split; [exact D|]. split; [exact E|]. split; [exact F|]. split.
+  - intros st0 Hin. rewrite H; [apply P1, Hin|]. destruct A as [AT _]. apply (A_ids _ _ AT st0 Hin).
+  - intros Hc id O L. rewrite (H id O). apply P2; assumption.
+Qed.
+
+(* SETTINGS and WINDOW_UPDATE on stream 0: their effect on the windows is C06's subject; here: no stream changes state *)
+Lemma G_conn_frame c s ph fr :
+  Sim c s ph -> sc_sl_done c = false -> sc_expectCont c = 0 -> no_pending hstate c = true -> sf_sid fr = 0 ->
+  (sf_kind fr = KSettings \/ sf_kind fr = KWinUpd /\ sf_inc fr <> 0) ->
+  feed c (IIn (RFrame fr)) = fst (sl_frame dec_field enc_set_max cfg c fr) ->
+  G c s ph (RFrame fr) (feed c (IIn (RFrame fr))).
+Proof.
+  intros HS Hsl E0 NP Z KK E. pose proof (S_aux _ _ _ _ HS) as [AT AH]. pose proof (A_wl _ _ AT) as Hwl.
+  assert (BN : RS.block s = None) by (rewrite (block_of_ec hstate c s (S_blk _ _ _ _ HS)), E0; reflexivity).
+  assert (NC : sf_kind fr <> KCont) by (destruct KK as [K|[K _]]; congruence).
+  assert (V : RS.verdicts s (RS.Frame (abs_frame fr)) = RS.on_connection (abs_frame fr)) by (apply verdicts_conn; assumption).
+  assert (VP : RS.may_process s (RS.Frame (abs_frame fr)) = true /\ RS.allowed s (RS.Frame (abs_frame fr)) (RS.ConnErr c_FlowControlError) = true).
+  { unfold RS.may_process, RS.allowed. rewrite V. unfold RS.on_connection, abs_frame. cbn [RS.f_kind RS.f_inc].
+    destruct KK as [K|[K I0]]; rewrite K; cbn [abs_kind]; [split; reflexivity|].
+    replace (sf_inc fr =? 0) with false by (symmetry; apply N.eqb_neq; exact I0). split; reflexivity. }
+  destruct VP as [Hmp Hfc].
+  assert (S1 : RS.spec_next s (RS.Frame (abs_frame fr)) RS.Process = s).
+  { rewrite spec_next_frame. cbn [conn_err]. change (RS.f_sid (abs_frame fr)) with (sf_sid fr). rewrite Z. cbn [N.eqb orb].
+    unfold pre_next, RS.in_sequence, abs_frame. cbn [RS.f_kind]. destruct KK as [K|[K _]]; rewrite K; reflexivity. }
+  (* the two endings *)
+  assert (OVER : forall cX dq, feed c (IIn (RFrame fr)) = fst (brk (write_goaway cX 0 c_FlowControlError)) ->
+            sc_out cX = dq ++ sc_out c -> sc_sl_done cX = false -> sc_wl_dead cX = false -> filter noisy dq = [] ->
+            (forall i rq, ~ In (ODispatch i rq) dq) -> G c s ph (RFrame fr) (feed c (IIn (RFrame fr)))).
+  { intros cX dq EX Ho A1 A2 Q Nd.
+    apply (G_over hstate dec_field enc_field enc_set_max cfg c s ph (RFrame fr) _ (OExit 1 0 :: OGoAway (sc_lastID cX) c_FlowControlError :: dq) EX).
+    - reflexivity.
+    - rewrite sc_out_brk, sc_out_write_goaway, A2, A1, Ho. reflexivity.
+    - reflexivity.
+    - cbn [abs_input input_sid filter noisy strip_late rev]. rewrite Q. cbn [rev app]. unfold classify. cbn [first_some is_goaway strip_late]. left. exact Hfc.
+    - intros i rq [H|[H|H]]; try discriminate. exfalso. exact (Nd i rq H). }
+  assert (LIVE : forall c' d, feed c (IIn (RFrame fr)) = c' -> sc_sl_done c' = false -> sc_out c' = d ++ sc_out c -> filter noisy d = [] ->
+            (forall i rq, ~ In (ODispatch i rq) d) -> batch hstate c c' d [] -> G c s ph (RFrame fr) (feed c (IIn (RFrame fr)))).
+  { intros c' d EX A1 Ho Q Nd HB.
+    assert (CL : classify (sf_sid fr) (rev (filter noisy d)) = RS.Process) by (rewrite Q; apply classify_nil).
+    apply (G_live hstate dec_field enc_field enc_set_max cfg c s ph fr c' d EX A1 Ho); rewrite ?CL; cbn [resolve]; rewrite ?Hmp.
+    - left. apply allowed_table. exact Hmp.
+    - rewrite S1. apply (live_tuple_ph c' _ ph); [apply (live_tuple_batch hstate c c' s ph d [] HS HB)|].
+      intros id O. cbn [ph_next]. rewrite Z. destruct (id =? 0) eqn:X; [apply N.eqb_eq in X; rewrite X in O; discriminate | reflexivity].
+    - intros i rq H. exfalso. exact (Nd i rq H). }
+  destruct KK as [K|[K I0]].
+  - (* SETTINGS *)
+    rewrite (sl_frame_settings c fr Z K) in E. cbv zeta in E.
+    set (c0 := if sf_set_hastable fr then upd_enc c (enc_set_max (sc_enc c) (sf_set_table fr)) else c) in *.
+    assert (C0 : sc_strms c0 = sc_strms c /\ sc_out c0 = sc_out c /\ sc_sl_done c0 = false /\ sc_wl_dead c0 = false).
+    { unfold c0. destruct (sf_set_hastable fr); auto. }
+    destruct C0 as (C0s & C0o & C0sl & C0wl).
+    destruct (sf_set_haswin fr).
+    + set (delta := (signed 32 (sf_set_win fr) - sc_initWin c0)%Z) in *.
+      change (sc_strms (upd_initWin c0 (signed 32 (sf_set_win fr)))) with (sc_strms c0) in E. rewrite C0s in E.
+      destruct (bump delta [] (sc_strms c)) as [l' over] eqn:BP.
+      pose proof (bump_shape delta (sc_strms c) [] [] l' over (Forall2_nil _) BP) as SH. cbn [app] in SH.
+      pose proof (bump_flags delta (sc_strms c) [] [] l' over (Forall2_nil _) BP) as FL. cbn [app] in FL.
+      set (c2 := upd_strms (upd_initWin c0 (signed 32 (sf_set_win fr))) l') in *.
+      destruct over.
+      * apply (OVER c2 [] E); auto; unfold c2; sc_cbn; auto; intros i rq [].
+      * cbn [fst cont] in E.
+        assert (NP2 : no_pending hstate (emit c2 OSettingsAck) = true).
+        { unfold no_pending. sc_rw. unfold c2. sc_cbn. rewrite (no_pending_shape _ _ FL). exact NP. }
+        rewrite (flush_streams_noop hstate _ NP2) in E.
+        apply (LIVE (emit c2 OSettingsAck) [OSettingsAck] E).
+        -- sc_rw. unfold c2. sc_cbn. exact C0sl.
+        -- rewrite sc_out_emit. unfold c2. sc_cbn. rewrite C0wl, C0sl, C0o. reflexivity.
+        -- reflexivity.
+        -- intros i rq [H|[]]; discriminate.
+        -- apply batch_rel; try exact AT; sc_rw; unfold c2; sc_cbn; unfold c0; try (destruct (sf_set_hastable fr); reflexivity). exact SH.
+    + cbn [fst cont] in E.
+      apply (LIVE (emit c0 OSettingsAck) [OSettingsAck] E).
+      * sc_rw. exact C0sl.
+      * rewrite sc_out_emit, C0wl, C0sl, C0o. reflexivity.
+      * reflexivity.
+      * intros i rq [H|[]]; discriminate.
+      * apply batch_same; try exact AT; sc_rw; unfold c0; destruct (sf_set_hastable fr); reflexivity.
+  - (* WINDOW_UPDATE *)
+    rewrite (sl_frame_winupd0 c fr Z K) in E. cbv zeta in E.
+    set (c1 := upd_clientWindow c (sc_clientWindow c + Z.of_N (sf_inc fr))) in *.
+    destruct (MAXWIN <? sc_clientWindow c + Z.of_N (sf_inc fr))%Z.
+    + apply (OVER c1 [] E); auto; intros i rq [].
+    + cbn [fst cont] in E. rewrite (flush_streams_noop hstate c1 NP) in E.
+      apply (LIVE c1 [] E); auto; try (intros i rq []); try (apply batch_same; auto).
+Qed.
+
 End Main.
